@@ -73,19 +73,6 @@ Theorem C16_refuted_rowid_takeover :
 Proof. exact refuted_rowid_takeover. Qed.
 Print Assumptions C16_refuted_rowid_takeover.
 
-(* class 2 (a defect of the SERIAL behaviour): strictly sequential schedule, the first mutation
-   only names another room: acknowledged, nothing is written *)
-Theorem C16_refuted_room_only :
-  let c := CSched wit_rt wit_db 4%N wit_room_only seq_sigma false in
-  known_C16 c = [2] /\ wf_case c = true /\ windows_ok wit_room_only [] seq_sigma = true /\
-  (exists s, run_sched wit_rt wit_db wit_room_only seq_sigma = Some s /\ s_acked s = [0; 1]%nat /\
-     (exists r, find_row 1%N (s_db s) = Some r /\ r_room r = Some 1%N) /\
-     (forall pi, Permutation [0; 1]%nat pi ->
-                 exists r, find_row 1%N (fold_left (spec_apply_i wit_room_only) pi wit_db) = Some r /\ r_room r = Some 2%N)) /\
-  spec_C16 c (run_C16 c) = false.
-Proof. exact refuted_room_only. Qed.
-Print Assumptions C16_refuted_room_only.
-
 (* (2) what does hold.
    In ANY schedule, overlapping or not: a mutation that the validation refused (or whose read
    failed) is never written; the database is the result of writing what ACKNOWLEDGED mutations
@@ -111,10 +98,9 @@ Theorem C16_serial_ok : forall rt d ms sigma s,
 Proof. exact serial_ok. Qed.
 Print Assumptions C16_serial_ok.
 
-(* the code's read-then-write of one request alone IS the abstract semantics of that request,
-   except for a room move that changes nothing else (class 2) *)
+(* the code's read-then-write of one request alone IS the abstract semantics of that request *)
 Theorem C16_serial_step_refines_spec : forall m d,
-  wfP d -> fresh_create d m -> ignored_move d m = false ->
+  wfP d -> fresh_create d m ->
   match read d m with Some p => write p d | None => d end = spec_apply m d.
 Proof. exact apply1_spec. Qed.
 Print Assumptions C16_serial_step_refines_spec.
@@ -122,7 +108,7 @@ Print Assumptions C16_serial_step_refines_spec.
 Theorem C16_serial_spec : forall rt d ms sigma s,
   wf_db d = true ->
   run_sched rt d ms sigma = Some s -> windows_ok ms [] sigma = true ->
-  moves_ok ms d (s_acked s) = true -> creates_fresh ms d (s_acked s) = true ->
+  creates_fresh ms d (s_acked s) = true ->
   s_db s = fold_left (spec_apply_i ms) (s_acked s) d.
 Proof. exact serial_spec. Qed.
 Print Assumptions C16_serial_spec.
@@ -133,8 +119,8 @@ Theorem C16_other_rows_frame : forall d m mo p,
 Proof. exact other_rows_frame. Qed.
 Print Assumptions C16_other_rows_frame.
 
-(* (3) the same, on the functions the harness evaluates: outside the known classes (no
-   overlapping windows on one row; no order in which a room move is ignored) the oracle — final
+(* (3) the same, on the functions the harness evaluates: outside the known class (no
+   overlapping windows on one row) the oracle — final
    rows and references = abstract sequential semantics of the acknowledged mutations in some
    order — accepts what the model predicts the implementation does; complete or not.
    wf_case: ids and rowids of the initial rows are unique and a creation draws a new id. *)
@@ -145,6 +131,17 @@ Theorem C16_outside_known : forall rt d nf ms sigma b,
   spec_C16 (CSched rt d nf ms sigma b) (run_C16 (CSched rt d nf ms sigma b)) = true.
 Proof. exact outside_known. Qed.
 Print Assumptions C16_outside_known.
+
+(* the former class 2 (a mutation that only names another room was acknowledged and dropped),
+   fixed in /repo by 07628ab: now a passing witness, replayed by the harness ("witness:room-only") *)
+Example C16_room_only_moves :
+  let c := CSched wit_rt wit_db 4%N wit_room_only seq_sigma false in
+  known_C16 c = [] /\ wf_case c = true /\
+  (exists s, run_sched wit_rt wit_db wit_room_only [R 0; V 0; W 0]%nat = Some s /\ s_acked s = [0]%nat /\
+     exists r, find_row 1%N (s_db s) = Some r /\ r_room r = Some 2%N /\ r_mdate r = 1000) /\
+  spec_C16 c (run_C16 c) = true.
+Proof. exact room_only_moves. Qed.
+Print Assumptions C16_room_only_moves.
 
 Example C16_nonvacuous :
   let c := CSched wit_rt nv_db 4%N nv_ms nv_sigma false in
